@@ -33,6 +33,13 @@ theorem secretbox_crypt_seamless (sub n8 msg : Bytes) (h8 : n8.length = 8) :
       = xorBytes msg ((C09.keystream sub (n8 ++ zeros 8) (32 + msg.length)).drop 32) :=
   crypt_eq_stream sub n8 msg h8
 
+/-- non-vacuity: concrete Seal / Open below, at and above the 32-byte seam -/
+example : sealGo [7] (zeros 33) (zeros 24) (zeros 32) = some ([7] ++ secretboxSpec (zeros 32) (zeros 24) (zeros 33)) ∧
+    openGo [7] (secretboxSpec (zeros 32) (zeros 24) (zeros 32)) (zeros 24) (zeros 32) = .ok ([7] ++ zeros 32) ∧
+    openGo [] (secretboxSpec (zeros 32) (zeros 24) [1]) (zeros 24) (zeros 32) = .ok [1] :=
+  ⟨secretbox_seal_eq_spec _ _ _ _ (by simp [zeros]), secretbox_open_seal _ _ _ _ (by simp [zeros]),
+   secretbox_open_seal _ _ _ _ (by simp [zeros])⟩
+
 example : secretboxSpec (zeros 32) (zeros 24) [] ≠ [] := by
   intro h
   have := secretboxSpec_length (zeros 32) (zeros 24) []
@@ -63,6 +70,11 @@ theorem box_open_seal (out out' msg nonce : Bytes) (dhAB dhBA : Option Bytes) (h
     exact (List.append_cancel_left this).symm
   subst this
   exact open_seal out msg nonce _ hn
+
+/-- non-vacuity: both parties with the same DH value; A seals, B opens -/
+example : boxOpen [] (secretboxSpec (precompute (some (zeros 32))) (zeros 24) [1, 2]) (zeros 24) (some (zeros 32)) = .ok [1, 2] :=
+  box_open_seal [] [] [1, 2] (zeros 24) _ _ rfl (by simp [zeros]) _
+    (by simpa [boxSeal] using seal_eq_spec [] [1, 2] (zeros 24) (precompute (some (zeros 32))) (by simp [zeros]))
 
 /-- a peer key for which crypto/ecdh reports an error (low-order point) yields the fixed key
     HSalsa20(0^32, 0^16): `curve25519.ScalarMult` zeroes the shared secret and `Precompute` goes on -/
@@ -104,6 +116,10 @@ theorem openAnon_sealAnon (out msg rc epk dh : Bytes) (he : epk.length = 32) :
   rw [if_neg (by omega), ← he, List.drop_left, List.take_left]
   exact open_seal out msg _ _ hn
 
+example : openAnon [] (zeros 32 ++ secretboxSpec (C09.hsalsa20 (zeros 32) (zeros 16)) (sealNonce (zeros 32) (zeros 32)) [5])
+    (zeros 32) (some (zeros 32)) = .ok [5] := by
+  simpa using openAnon_sealAnon [] [5] (zeros 32) (zeros 32) (zeros 32) (by simp [zeros])
+
 theorem openAnon_short (out box pk : Bytes) (dh : Option Bytes) (h : box.length < 48) :
     openAnon out box pk dh = .fail := by simp [openAnon, h]
 
@@ -133,6 +149,9 @@ theorem sign_open (out out' msg sig : Bytes) (hs : sig.length = 64) :
   rw [if_neg (by omega)]
   simp [← hs]
 
+example : signOpen [] (zeros 64 ++ [1, 2]) true = some [1, 2] ∧ signOpen [] (zeros 64 ++ [1, 2]) false = none ∧
+    signOpen [] (zeros 63) true = none := by decide
+
 /-! ### auth -/
 
 theorem authSum_eq (m key : Bytes) : authSum m key = (Prim.hmacSha512 key m).take 32 := rfl
@@ -141,5 +160,13 @@ theorem authVerify_iff (digest m key : Bytes) :
     authVerify digest m key = true ↔ digest.length = 32 ∧ digest = authSum m key := by
   simp only [authVerify]
   by_cases h : digest.length = 32 <;> simp [h]
+
+/-- non-vacuity: Verify only ever accepts 32-byte digests, and it accepts `Sum`'s output whenever that has 32 bytes -/
+example (d m k : Bytes) (h : authVerify d m k = true) : d.length = 32 := ((authVerify_iff d m k).mp h).1
+
+example (m k : Bytes) (h : (authSum m k).length = 32) : authVerify (authSum m k) m k = true :=
+  (authVerify_iff _ _ _).mpr ⟨h, rfl⟩
+
+example : authVerify [] [1] (zeros 32) = false := by simp [authVerify]
 
 end XC.C10
